@@ -1188,3 +1188,19 @@ mutant('C08', 'c08-listener-registered-conditionally', TRACKED,
        "        self._listeners[listener] = None",
        "        if listener._waiting:\n            self._listeners[listener] = None",
        'Tracked.__add_listener__', 'only comparisons that already have waiters are told of changes')
+mutant('C18', 'c18-sweep-interrupt-cause-lost', PYEVENTS,
+       "            self.__usimpy_flag__._value = False\n        return result",
+       "            self.__usimpy_flag__._value = False\n        return None",
+       'InterruptQueue.pop:returns-the-cause', 'every Interrupt carries the cause None')
+mutant('C19', 'c19-sweep-grant-not-stamped', RRES,
+       "            self.users.append(event)\n            event.usage_since = self._env.now\n",
+       "            self.users.append(event)\n",
+       'grant:stamps-usage_since', 'Preempted.usage_since is None for every victim')
+mutant('C19', 'c19-sweep-preempted-forgets-by', RRES,
+       "        self.by = by\n", "        pass\n",
+       'Preempted:details-kept', 'a victim cannot read who pre-empted it')
+mutant('C19', 'c19-sweep-users-plain-list', RRES,
+       "        self.users = SortedQueue()  # type: SortedQueue[PriorityRequest]\n",
+       "        pass\n",
+       None, 'the users of a PreemptiveResource stay in grant order: the victim is the last '
+       'granted user, not the worst')
